@@ -841,6 +841,19 @@ def check_C04(tier, seed):
         cases.append({"id": "seq-%05d" % i, "family": "bind-groups-exported", "S": S, "opts": F.opts()})
     want = {"bindgroups"}
     compiled_and_judge(rep, "C04", cases, "exported", "shim", want, keep=["groups"])
+    # operation sequences explored by TLC over the API state machine, replayed on the compiled module
+    rr = run_mc("MC_Runtime.tla", "MC_Runtime.cfg", workers=4)
+    rep.add_mc("MC_Runtime(2 groups x 3 pass kinds, sequences of 4 operations)", rr, "a group is only ever bound in its own slot; every sequence exported")
+    rep.add_selftest("MC_Runtime_mut(set binds at index + 1)", run_mc("MC_Runtime.tla", "MC_Runtime_mut.cfg", workers=2, expect_violation=True))
+    seqs = rr.cases[:]
+    rng.shuffle(seqs)
+    S2 = F.bgd_shader([{"g": 1, "b": 3}, {"g": 0, "b": 5}, {"g": 1, "b": 0}, {"g": 0, "b": 1}], use=True,
+                      tys=[F.VEC4, {"k": "tex", "class": "sampled", "dim": "2d", "kind": "f32"}, {"k": "sampler", "cmp": False}, {"k": "scalar", "s": "f32"}])
+    for g in S2["globals"]:
+        g["space"] = "handle" if g["ty"]["k"] in ("tex", "sampler") else "uniform"
+    S2["entries"][0]["body"] = [{"k": "access", "g": g["name"], "how": "tex_dims" if g["ty"]["k"] == "tex" else "load"} for g in S2["globals"] if g["ty"]["k"] != "sampler"]
+    ocases = [{"id": "ops-%04d" % i, "family": "bind-groups-op-sequences", "S": S2, "opts": F.opts(), "ops": e["ops"]} for i, e in enumerate(seqs[:(120 if quick else 2317)])]
+    compiled_and_judge(rep, "C04", ocases, "ops", "shim", want, keep=["groups"])
     compiled_and_judge(rep, "C04", sparse_group_cases(rng, 150 if quick else 3000), "random", "shim", want, keep=["groups"])
     return finish(rep)
 
